@@ -37,7 +37,8 @@ CHECKS.update({
               "recorded traces (replays + seeded random lossy runs + hand-written boundary scripts: messages of 254..257 fragments, too-small "
               "Recv buffers, forged fragment trains, zero-window / loss-and-fast schedules) are validated by TLC: KcpObs monitors decide, "
               "KcpCoreTrace conformance reports drift. Session level: 150 transfers judged by SessObs -- every Read returns the next bytes, "
-              "and in message mode exactly min(buffer, rest of the current message). A genuine defect (stream-mode Send keeping part of a "
+              "and in message mode exactly min(buffer, rest of the current message) -- plus vectored writes (WriteBuffers, 2-4 slices) behind small "
+              "send windows with short write deadlines, where the application retries what a failed call says it did not accept. A genuine defect (stream-mode Send keeping part of a "
               "buffer it refuses) was repaired."),
         design_ref="§4 C01, §3.2, §5", note=CORE_NOTE,
         technique="TLA+ spec of the ARQ core + TLC; behaviour replay with per-step state comparison; TLC trace validation"),
@@ -152,7 +153,10 @@ CHECKS.update({
               "blocked in Write behind a full send window}; every sequence of <= 3 deadline changes is enumerated on both sides; Close, a "
               "failing transport and the Close of a listener that owns its transport are issued while callers are blocked; the monitors are "
               "evaluated at every tick (nobody blocked although closed / failed / the resource is there / the deadline is reached), not only "
-              "at the end. Accept and after-Close clauses are scripted API cases. "
+              "at the end. Events INSIDE a call: hook points of the wait loops (deadline loaded / about to park) serve as scheduler gates, so the "
+              "interleavings between the labels of SessionWait.tla (a deadline set, shortened, extended or cleared, a unit arriving, Close, a "
+              "socket error -- between the load of the deadline, the locked check and the park) are executed on the real calls. "
+              "Accept and after-Close clauses are scripted API cases. "
               "Two listed known findings (deadline change with concurrent callers; Accept deadline changed while blocked)."),
         design_ref="§4 C13, §3.6", note="Trusted: synctest's virtual clock and synctest.Wait as the quiescence detector.",
         technique="TLA+ model of the wait loops + TLC; TLC-generated scripts on real sessions; trace validation with silent steps"),
@@ -164,7 +168,9 @@ CHECKS.update({
               "goroutine with a kcp-go frame may remain in the bubble; the pool sanitizer reports double Put and writes into recycled "
               "buffers; TLC monitors decide. Variants: paced output (SetRateLimit) so that Close finds the post-processing queue busy, "
               "transports failing writes before Close, sessions/listeners that own their transport, and a FORCED interleaving (the input "
-              "hook as scheduler gate): a datagram past the receive loop's closed-check is processed after Close has completed. "
+              "hook as scheduler gate): a datagram past the receive loop's closed-check is processed after Close has completed; and Close after a "
+              "long silence (peer gone, 4-90 virtual minutes past the dead-link threshold), where a dialled session owning its transport must "
+              "release it by itself. "
               "A leak of sessions never handed out by Accept is a listed known finding (its model-level form must still be refuted by TLC)."),
         design_ref="§4 C15", note="Trusted: synctest's bubble goroutine tracking, runtime.Stack parsing, the sanitizer (verif tag).",
         technique="TLA+ lifecycle model + TLC (liveness); bubble leak detection + pool sanitizer judged by TLC monitors"),
@@ -182,7 +188,9 @@ CHECKS.update({
         text=("Frame.tla: OOBConsumesNoSeqid (action property), OOBNeverEntersFecOrKcp, refusal rule and LenBound for OOB are model-checked. "
               "On the code OOB messages of boundary lengths are interleaved with Write traffic in both directions under loss; every handler "
               "invocation must equal a message sent by that session's peer, refusal exactly for oversize/no-FEC, the FEC id sequence on the "
-              "wire must be unaffected and the stream monitors (C01/C02) must stay green on the same runs; well-formed OOB datagrams of OTHER "
+              "wire must be unaffected and the stream monitors (C01/C02) must stay green on the same runs; the FEC encoder's continuity rule is "
+              "part of SessObs.tla: a group completed within 500 ms of the flow's previous data packet must be followed by all its parity "
+              "packets, whatever out-of-band traffic is interleaved (FecProtectionKept); well-formed OOB datagrams of OTHER "
               "conversations between the same two addresses must not reach the handler (a genuine defect of the dialled side was repaired); "
               "the session's input routing is validated against FrameRouting!SessionEffect (SessionRouteTrace)."),
         design_ref="§4 C19", note="Trusted as C09.",
